@@ -6,6 +6,9 @@ from gen_dsm import MODELS, driver, fnum, grid, prm_spec
 from proto import rng
 
 
+BAD = {"WeibullLifetime": "weibull_shape", "NormalLifetime": "mean", "FoldedNormalLifetime": "mean"}
+
+
 def gen_dsmhist(tier, seed):
     r = rng(seed, "dsm-history")
     ncases, maxops = (100, 10) if tier == "quick" else (1500, 30)
@@ -24,6 +27,13 @@ def gen_dsmhist(tier, seed):
         span = max(1, items[-1] - items[0])
         npsets = r.randint(2, 3)
         psets = [{p: prm_spec(r, p, letters, shape, span) for p in MODELS[cls]} for _ in range(npsets)]
+        npsets0 = npsets
+        # a parameter set that cannot be used (the table build raises): never the initial one
+        if cls in BAD and r.random() < 0.4:
+            bad = {p: prm_spec(r, p, letters, shape, span) for p in MODELS[cls]}
+            bad[BAD[cls]] = {"kind": "scalar", "v": "-1"}
+            psets.append(bad)
+            stats["bad_psets"] = stats.get("bad_psets", 0) + 1
         kind = r.choice(["idsm", "sdsm"])
         dk = "nonneg" if kind == "idsm" else "any"
         ops = []
@@ -40,6 +50,13 @@ def gen_dsmhist(tier, seed):
             else:
                 ops.append([o])
             stats["ops"][o] = stats["ops"].get(o, 0) + 1
+        if len(psets) > npsets0:
+            # use the unusable set: failed reads / computes, then usable parameters again
+            at = r.randrange(len(ops) + 1)
+            seq = [["setprms", len(psets) - 1]] + [[r.choice(["readsf", "readpdf", "compute"])] for _ in range(r.randint(1, 3))]
+            if r.random() < 0.7:
+                seq += [["setprms", r.randrange(npsets0)], ["compute"]]
+            ops[at:at] = seq
         ops.append(["compute"])
         via = r.random() < 0.3
         specs.append({"id": cid, "items": items, "extra": extra, "cls": cls,
